@@ -397,6 +397,14 @@ func (rf *ReplicaFollower) preSync(leaderSp StartPoint) (sp StartPoint, err erro
 	rf.logger.Infof("gap : leader(%v), follower(%v)", leaderSp, sp)
 
 	if sp.IsInitial() || !sp.IsValid() || sp.RunId != leaderSp.RunId {
+		// whatever the cache still holds belongs to another replication history, which cannot
+		// be joined with the leader's stream : discard it instead of relabelling it
+		if old := rf.channel.RunId(); old != "" && old != leaderSp.RunId {
+			if err = rf.channel.DelRunId(old); err != nil {
+				err = errors.Join(ErrRestart, err)
+				return
+			}
+		}
 		if err = rf.channel.SetRunId(leaderSp.RunId); err != nil {
 			err = errors.Join(ErrRestart, err)
 			return
